@@ -34,10 +34,10 @@ func flipBits(t *rapid.T, b []byte, label string) []byte {
 	if len(out) == 0 {
 		return out
 	}
-	n := rapid.IntRange(1, 3).Draw(t, label+".nflips")
-	for i := 0; i < n; i++ {
-		pos := rapid.IntRange(0, len(out)*8-1).Draw(t, label+".bit")
-		out[pos/8] ^= 1 << uint(pos%8)
+	// distinct positions: flipping a bit twice would be the identity mutation
+	pos := rapid.SliceOfNDistinct(rapid.IntRange(0, len(out)*8-1), 1, min(3, len(out)*8), rapid.ID[int]).Draw(t, label+".bits")
+	for _, p := range pos {
+		out[p/8] ^= 1 << uint(p%8)
 	}
 	return out
 }
